@@ -17,6 +17,7 @@
 (*           {a, ':', backslash, newline, NUL, space}                      *)
 (*   bytes   no -d / -d ''; {a, NUL, ill-formed bytes, three-byte          *)
 (*           character, newline, backslash}                                *)
+(*   long    default delimiter; {a, space, newline}, longer inputs         *)
 (*   errs    read-only variables, invalid names, no operand, invalid       *)
 (*           delimiters; {a, space, newline}                               *)
 (*   noin    descriptor 0 closed                                           *)
@@ -38,6 +39,7 @@ Alpha(f) ==
     [] f = "wide"  -> {"a", "b", " ", ":", BSL, NL, "\t", "W2"}
     [] f = "delim" -> {"a", ":", BSL, NL, NUL, " "}
     [] f = "bytes" -> {"a", NUL, BAD, CUT, "W3", NL, BSL}
+    [] f = "long"  -> {"a", " ", NL}
     [] f = "errs"  -> {"a", " ", NL}
     [] f = "noin"  -> {}
 MaxLen(f) ==
@@ -45,6 +47,7 @@ MaxLen(f) ==
     [] f = "wide"  -> 3 + Deep
     [] f = "delim" -> 3 + Deep
     [] f = "bytes" -> 2 + Deep
+    [] f = "long"  -> 6 + Deep
     [] f = "errs"  -> 3
     [] f = "noin"  -> 0
 Delims(f) ==
@@ -55,7 +58,7 @@ Delims(f) ==
 (* the fan: << raw, index into IfsTable, kinds of the variable operands >> *)
 Kinds(f) == IF f \in {"errs", "noin"} THEN << <<>>, <<"b">>, <<"o", "b">>, <<"r">>, <<"o", "r">>, <<"r", "o">>, <<"o", "r", "o">>, <<"o", "o">> >>
             ELSE << <<"o">>, <<"o", "o">>, <<"o", "o", "o">> >>
-IfsIdx(f) == IF f \in {"errs", "bytes", "noin"} THEN <<1, 5>> ELSE <<1, 2, 3, 4, 5, 6>>
+IfsIdx(f) == IF f \in {"errs", "bytes", "noin"} THEN <<1, 5>> ELSE IF f = "long" THEN <<1, 2, 5>> ELSE <<1, 2, 3, 4, 5, 6>>
 
 Init == \E f \in Fams : \E d \in Delims(f) : st = [fam |-> f, d |-> d, inp |-> <<>>]
 Next == /\ Len(st.inp) < MaxLen(st.fam)
